@@ -43,6 +43,10 @@ def handle (g : St) (j : Json) : St × Json :=
     match removeCells g (jints j "idx") with
     | .ok g' => (g', stJson "ok" g')
     | .error e => (g, stJson (errStr e) g)
+  | "maskCopy" =>      -- the copy is returned, the object itself is unchanged
+    match maskedCopy g ((jarr j "mask").map asBool) with
+    | .ok c => (g, stJson "ok" c)
+    | .error e => (g, stJson (errStr e) g)
   | "set" =>
     match setValues "nan" g (jbool j "cell") (jstr j "name") (jstrs j "v") with
     | .ok g' => (g', stJson "ok" g')
